@@ -611,6 +611,13 @@ class io_epoll_context::read_sender {
 
       self.stopCallback_.destruct();
 
+      // Deregister before the election (as on_write_complete does): epoll is
+      // level-triggered, so a registration left behind by the early return
+      // below would report this operation again after execute_ was consumed.
+      epoll_event event = {};
+      (void)epoll_ctl(
+          self.context_.epollFd_.get(), EPOLL_CTL_DEL, self.fd_, &event);
+
       auto oldState = self.state_.fetch_add(
           io_epoll_context::read_sender::operation<Receiver>::io_flag,
           std::memory_order_acq_rel);
@@ -622,10 +629,6 @@ class io_epoll_context::read_sender {
         // completion
         return;
       }
-
-      epoll_event event = {};
-      (void)epoll_ctl(
-          self.context_.epollFd_.get(), EPOLL_CTL_DEL, self.fd_, &event);
 
       auto result = readv(self.fd_, self.buffer_, 1);
       if (result < 0) {
@@ -663,6 +666,19 @@ class io_epoll_context::read_sender {
       if (static_cast<completion_base&>(self).enqueued_.load() == 0) {
         // Avoid instantiating set_done() if we're not going to call it.
         if constexpr (is_stop_ever_possible) {
+          if ((self.state_.load(std::memory_order_acquire) & io_mask) == 0) {
+            // The readiness handler never ran, so stopCallback_ is still
+            // constructed. request_stop() may still be returning through the
+            // stop source on another thread, which writes to the callback
+            // object afterwards: wait for it before the operation can go away.
+            self.stopCallback_.destruct();
+          }
+          // start_io() registers with epoll after constructing stopCallback_;
+          // if the stop request ran inside that constructor, or raced with
+          // it, request_stop()'s EPOLL_CTL_DEL came before the EPOLL_CTL_ADD.
+          epoll_event event = {};
+          (void)epoll_ctl(
+              self.context_.epollFd_.get(), EPOLL_CTL_DEL, self.fd_, &event);
           unifex::set_done(std::move(self.receiver_));
         } else {
           // This should never be called if stop is not possible.
@@ -900,6 +916,19 @@ class io_epoll_context::write_sender {
       if (static_cast<completion_base&>(self).enqueued_.load() == 0) {
         // Avoid instantiating set_done() if we're not going to call it.
         if constexpr (is_stop_ever_possible) {
+          if ((self.state_.load(std::memory_order_acquire) & io_mask) == 0) {
+            // The readiness handler never ran, so stopCallback_ is still
+            // constructed. request_stop() may still be returning through the
+            // stop source on another thread, which writes to the callback
+            // object afterwards: wait for it before the operation can go away.
+            self.stopCallback_.destruct();
+          }
+          // start_io() registers with epoll after constructing stopCallback_;
+          // if the stop request ran inside that constructor, or raced with
+          // it, request_stop()'s EPOLL_CTL_DEL came before the EPOLL_CTL_ADD.
+          epoll_event event = {};
+          (void)epoll_ctl(
+              self.context_.epollFd_.get(), EPOLL_CTL_DEL, self.fd_, &event);
           unifex::set_done(std::move(self.receiver_));
         } else {
           // This should never be called if stop is not possible.
